@@ -50,8 +50,10 @@ def gen_case(rng, flavour):
             return "P%d,%d" % (i, tv())
         if r < 0.70:
             return "Q%d" % rng.choice([1, 1, 0])
-        if r < 0.74:
+        if r < 0.72:
             return "X"
+        if r < 0.74:
+            return "V"
         if r < 0.80:
             return "A%d" % rng.choice([0, 1, 3, 10, 50])
         if r < 0.90:
